@@ -40,6 +40,17 @@ def population(tier, seed):
         g["id"] = "xr%05d" % i
         g.pop("recshape", None)
         recs.append(g)
+    for i in range(30 if tier == "quick" else 300):
+        # two nonterminals with a common prefix, one continues with `!`, the other is followed by `!`
+        t, u = fam_rng.sample(gen.TS[:4], 2)
+        real = fam_rng.random() < 0.6
+        prods = [{"lhs": "S", "rhs": ["A"]}, {"lhs": "S", "rhs": ["B", "error"]},
+                 {"lhs": "A", "rhs": [t, "error"] if real else [t, u, "error"]}, {"lhs": "B", "rhs": [t]}]
+        if fam_rng.random() < 0.5:
+            prods.append({"lhs": "S", "rhs": [u, "S", u]})
+        g = {"id": "xe%05d" % i, "ts": [x for x in gen.TS if any(x in p["rhs"] for p in prods)], "nts": ["S", "A", "B"],
+             "starts": ["S"], "prods": prods, "recovery": True}
+        recs.append(g)
     fams += recs
     if tier == "quick":
         pop = list(ss)
